@@ -113,6 +113,15 @@ def cdc_bench(name, cmd_depth=4, wdata_depth=4, rdata_depth=4, fairness=3, aw=4,
         covers["%s_marked_item_crosses_with_others_in_flight" % sname] = c
     # the real crossbar does not wait for rdata.ready: read data offered while the CDC cannot take it is lost
     bad("read_data_offered_while_crossing_cannot_take_it_word_lost", pc.rdata.valid & ~pc.rdata.ready)
+    # ... and the crossing refuses a word only when it really holds (about) rdata_depth words: occupancy + words the user popped
+    # in the last few steps (the write side sees pops a few edges late) is at least the nominal depth
+    occ = Signal(8)
+    pops = [Signal() for _ in range(6)]
+    push_r = pc.rdata.valid & pc.rdata.ready & ts
+    pop_r = pu.rdata.valid & pu.rdata.ready & tu
+    top.sync.mon += [occ.eq(occ + push_r - pop_r), pops[0].eq(pop_r)] + [pops[i].eq(pops[i - 1]) for i in range(1, 6)]
+    recent = sum(pops[1:], pops[0]) + pop_r
+    bad("crossing_refuses_read_data_although_fewer_than_rdata_depth_words_are_inside", ~pc.rdata.ready & (occ + recent < rdata_depth))
     if bounded_reads:
         # the controller offers a read word only when the crossing can take it (a well-behaved stream producer); what happens
         # when it does not is the subject of the 'unbounded_reads' benches
@@ -134,6 +143,7 @@ def cdc_bench(name, cmd_depth=4, wdata_depth=4, rdata_depth=4, fairness=3, aw=4,
 CONFIGS = {
     "cdc_d4_fair3": (dict(cmd_depth=4, wdata_depth=4, rdata_depth=4, fairness=3), 22, 36, "qt"),
     "unbounded_reads_cdc_d4_fair3": (dict(cmd_depth=4, wdata_depth=4, rdata_depth=4, fairness=3, bounded_reads=False), 18, 24, "qt"),
+    "unbounded_reads_cdc_default_depths_fair3": (dict(cmd_depth=4, wdata_depth=16, rdata_depth=16, fairness=3, bounded_reads=False), 20, 30, "qt"),
     "unbounded_reads_cdc_default_depths_fair6": (dict(cmd_depth=4, wdata_depth=16, rdata_depth=16, fairness=6, bounded_reads=False), 0, 60, "t"),
     "cdc_default_depths_fair3": (dict(cmd_depth=4, wdata_depth=16, rdata_depth=16, fairness=3), 22, 40, "qt"),
     "cdc_d8_fair6": (dict(cmd_depth=8, wdata_depth=8, rdata_depth=8, fairness=6), 0, 40, "t"),
@@ -156,8 +166,10 @@ def run(ctx):
             continue
         if ctx.tier == "quick" and "q" in tiers:
             ctx.add(n, kq, timeout=1200, min_K=16, chunk=6, diff_cycles=10,
-                    bads=["read_data_offered_while_crossing_cannot_take_it_word_lost"] if n.startswith("unbounded") else None)
+                    bads=["read_data_offered_while_crossing_cannot_take_it_word_lost",
+                          "crossing_refuses_read_data_although_fewer_than_rdata_depth_words_are_inside"] if n.startswith("unbounded") else None)
         elif ctx.tier == "thorough":
             ctx.add(n, kt, timeout=3000, min_K=kq or 20, chunk=4, diff_cycles=12, cover_required=not n.startswith("unbounded"),
-                    bads=["read_data_offered_while_crossing_cannot_take_it_word_lost"] if n.startswith("unbounded") else None)
+                    bads=["read_data_offered_while_crossing_cannot_take_it_word_lost",
+                          "crossing_refuses_read_data_although_fewer_than_rdata_depth_words_are_inside"] if n.startswith("unbounded") else None)
     ctx.run()
